@@ -35,6 +35,7 @@ import (
 	"github.com/VictoriaMetrics/VictoriaMetrics/lib/bytesutil"
 	"github.com/VictoriaMetrics/VictoriaMetrics/lib/encoding"
 	"github.com/openGemini/openGemini/engine/index/mergeindex"
+	"github.com/openGemini/openGemini/lib/config"
 	"github.com/openGemini/openGemini/lib/errno"
 	"github.com/openGemini/openGemini/lib/logger"
 	"github.com/openGemini/openGemini/lib/util/lifted/influx/index"
@@ -312,8 +313,7 @@ func (is *indexSearch) initTagFilter(name []byte, expr influxql.Expr, i int) err
 		err = tf.Init(name, []byte(key.Val), []byte(value.Val), n.Op != influxql.EQ, false)
 	case *influxql.RegexLiteral:
 		err = tf.Init(name, []byte(key.Val), []byte(value.Val.String()), n.Op != influxql.EQREGEX, true)
-		matchAll := value.Val.MatchString("")
-		if matchAll {
+		if regexMatchesEverything(value.Val) {
 			tf.SetRegexMatchAll(true)
 		}
 	default:
@@ -967,8 +967,7 @@ func (is *indexSearch) searchTSIDsByBinaryExpr(name []byte, n *influxql.BinaryEx
 		if err != nil {
 			return nil, err
 		}
-		matchAll := value.Val.MatchString("")
-		if matchAll {
+		if regexMatchesEverything(value.Val) {
 			tf.SetRegexMatchAll(true)
 		}
 	case *influxql.VarRef:
@@ -1052,8 +1051,7 @@ func (is *indexSearch) seriesByBinaryExpr(name []byte, n *influxql.BinaryExpr, t
 		err = tf.Init(name, []byte(key.Val), []byte(value.Val), n.Op != influxql.EQ, false)
 	case *influxql.RegexLiteral:
 		err = tf.Init(name, []byte(key.Val), []byte(value.Val.String()), n.Op != influxql.EQREGEX, true)
-		matchAll := value.Val.MatchString("")
-		if matchAll {
+		if regexMatchesEverything(value.Val) {
 			tf.SetRegexMatchAll(true)
 		}
 	case *influxql.VarRef:
@@ -1125,22 +1123,23 @@ func (is *indexSearch) seriesByBinaryExprSetLiteral(name, key []byte, vals map[i
 }
 
 func (is *indexSearch) seriesByBinaryExprVarRef(name, key, val []byte, equal bool) (index.SeriesIDSetIterator, error) {
+	// the series that carry the tag key / the tag val (a plain filter with an empty value scans every value of its key)
 	tf1 := new(tagFilter)
-	if err := tf1.Init(name, key, []byte(".*"), false, true); err != nil {
+	if err := tf1.Init(name, key, nil, false, false); err != nil {
 		return nil, err
 	}
 
 	tf2 := new(tagFilter)
-	if err := tf2.Init(name, val, []byte(".*"), false, true); err != nil {
+	if err := tf2.Init(name, val, nil, false, false); err != nil {
 		return nil, err
 	}
 
-	set1, _, err := is.searchTSIDsByTagFilterAndDateRange(tf1)
+	set1, err := is.searchTSIDsByTagFilter(tf1)
 	if err != nil {
 		return nil, err
 	}
 
-	set2, _, err := is.searchTSIDsByTagFilterAndDateRange(tf2)
+	set2, err := is.searchTSIDsByTagFilter(tf2)
 	if err != nil {
 		return nil, err
 	}
@@ -1249,6 +1248,9 @@ func (is *indexSearch) getTSIDsByTagFilterWithRegex(tf *tagFilter) (*uint64set.S
 		if err != nil {
 			return nil, math.MaxInt64, err
 		}
+		if err = is.addSeriesWithoutTag(tf, m); err != nil {
+			return nil, math.MaxInt64, err
+		}
 
 		return m, int64(m.Len()), nil
 
@@ -1273,6 +1275,9 @@ func (is *indexSearch) getTSIDsByTagFilterWithRegex(tf *tagFilter) (*uint64set.S
 	if err != nil {
 		return nil, math.MaxInt64, err
 	}
+	if err = is.addSeriesWithoutTag(tf, m); err != nil {
+		return nil, math.MaxInt64, err
+	}
 
 	cost := int64(m.Len() + tsids.Len())
 	tsids, err = is.subTSIDSWithTagArray(tsids, m)
@@ -1280,6 +1285,29 @@ func (is *indexSearch) getTSIDsByTagFilterWithRegex(tf *tagFilter) (*uint64set.S
 		return nil, math.MaxInt64, err
 	}
 	return tsids, cost, nil
+}
+
+// addSeriesWithoutTag adds to m the series of the measurement that do not carry the tag of the regexp filter tf when the
+// expression matches the empty string (an absent tag is the empty string), e.g. host =~ /^$/ or host =~ /^(web|)$/.
+func (is *indexSearch) addSeriesWithoutTag(tf *tagFilter, m *uint64set.Set) error {
+	if !tf.isRegexp || !tf.isEmptyMatch || config.GetStoreConfig().EnablePerlRegrep {
+		return nil
+	}
+	all, err := is.getTSIDsByMeasurementName(tf.name)
+	if err != nil {
+		return err
+	}
+	withTag := new(tagFilter)
+	if err = withTag.Init(tf.name, tf.key, nil, false, false); err != nil {
+		return err
+	}
+	has, err := is.searchTSIDsByTagFilter(withTag)
+	if err != nil {
+		return err
+	}
+	all.Subtract(has)
+	m.Union(all)
+	return nil
 }
 
 func (is *indexSearch) getTSIDsByMeasurementName(name []byte) (*uint64set.Set, error) {
